@@ -132,7 +132,8 @@ pub fn run(prop: &E1Prop, tier: Tier) -> i32 {
     }
 
     // development aid: VERIF_ONLY=T2 runs the metamorphic tier alone, VERIF_T2_CASES overrides its size
-    let only_t2 = std::env::var("VERIF_ONLY").map_or(false, |v| v == "T2");
+    let only_t3 = std::env::var("VERIF_ONLY").map_or(false, |v| v == "T3");
+    let only_t2 = std::env::var("VERIF_ONLY").map_or(false, |v| v == "T2") || only_t3;
     if std::env::var("VERIF_ONLY").map_or(false, |v| v == "R0") {
         // development aid: the regression tier alone (used to confirm that a saved input fails on the tree before its fix)
         eprintln!("[{}] R0 only: {} evaluations, {} violations", prop.id, stats.evaluations, rep.violations);
@@ -156,10 +157,10 @@ pub fn run(prop: &E1Prop, tier: Tier) -> i32 {
         Tier::Thorough => prop.t2_cases.1,
     };
     let t2n = std::env::var("VERIF_T2_CASES").ok().and_then(|v| v.parse().ok()).unwrap_or(t2n);
-    t2(prop, seed, t2n, &findings, &mut rep, &mut stats);
+    t2(prop, seed, if only_t3 { 0 } else { t2n }, &findings, &mut rep, &mut stats);
 
-    // 4. property-specific tier
-    if let (Some(extra), false) = (prop.extra, only_t2) {
+    // 4. property-specific tier (development aid: VERIF_ONLY=T3 runs it alone)
+    if let (Some(extra), false) = (prop.extra, only_t2 && !only_t3) {
         extra(&mut rep, &mut stats, tier, &findings);
     }
 
